@@ -43,6 +43,8 @@ class EvalContext(metaclass=NamespaceableMeta):
                 node = self._cfgobj[key]
                 return self._eval_ctx.evaluate_node(node, self._path + [key])
 
+            if self._eval_ctx._require_all_safe:
+                self._eval_ctx.get_node(self._path + [key]) # raises if the already evaluated value comes from an unsafe node
             return super().__getitem__(key)
 
         def __getattr__(self, name):
@@ -81,6 +83,7 @@ class EvalContext(metaclass=NamespaceableMeta):
         self._removed_nodes = {}
         self._eval_cache = {}
         self._eval_cache_id = {}
+        self._eval_cache_unsafe = {}
         self._eval_symbols = copy.copy(EvalContext._default_eval_symbols)
         if eval_symbols:
             self._eval_symbols.update(eval_symbols)
@@ -118,6 +121,8 @@ class EvalContext(metaclass=NamespaceableMeta):
     def get_node(self, *path, **kwargs):
         path = NodePath.get_list_path(*path)
         if str(path) in self._eval_cache:
+            if self._require_all_safe and str(path) in self._eval_cache_unsafe:
+                raise errors.UnsafeError(f'Note: the current context requires all evaluated nodes to be safe - see chained exceptions for more information', self._eval_cache_unsafe[str(path)], str(path))
             return self._eval_cache[str(path)]
         return self.cfg.ayns.get_node(path, **kwargs)
 
@@ -150,6 +155,8 @@ class EvalContext(metaclass=NamespaceableMeta):
             evaluated_parent[prefix[-1]] = evaluated_cfgobj
 
         self._eval_cache[str(prefix)] = evaluated_cfgobj
+        if not cfgobj.ayns.safe:
+            self._eval_cache_unsafe[str(prefix)] = cfgobj
         self._eval_cache_id[utils.persistent_id(cfgobj)] = evaluated_cfgobj
         self._eval_stack.pop()
         return evaluated_cfgobj
@@ -167,6 +174,7 @@ class EvalContext(metaclass=NamespaceableMeta):
         self._ecfg = EvalContext.PartialChild(NodePath(), self, self._cfg)
         self._eval_cache.clear()
         self._eval_cache_id.clear()
+        self._eval_cache_unsafe.clear()
         self.user_data = Bunch()
 
         try:
@@ -174,6 +182,7 @@ class EvalContext(metaclass=NamespaceableMeta):
         finally:
             self._eval_cache.clear()
             self._eval_cache_id.clear()
+            self._eval_cache_unsafe.clear()
             self._cfg = None
             self._ecfg = None
 
